@@ -70,6 +70,13 @@ def A(x):
     return a
 
 
+def AK(x):
+    """like A() but keeps finite-table elements as they are (for handlers that only move elements)"""
+    if isinstance(x, SymTensor):
+        return x.arr()
+    return A(x)
+
+
 def _wrapped_number(x):
     """true when x behaves like a python scalar in type promotion (0-dim handled by torch meta anyway)"""
     return not isinstance(x, SymTensor)
@@ -706,7 +713,8 @@ NO_FAST = set()
 # ops that only move elements around: handled structurally so that table supports stay small
 STRUCTURAL = {"aten.clone.default", "aten.cat.default", "aten.stack.default", "aten.flip.default", "aten.roll.default", "aten.repeat.default",
               "aten.constant_pad_nd.default", "aten.zeros_like.default", "aten.ones_like.default", "aten.empty_like.default", "aten.full_like.default",
-              "aten.new_zeros.default", "aten.new_ones.default", "aten.new_empty.default", "aten.contiguous.default", "aten.resolve_conj.default"}
+              "aten.new_zeros.default", "aten.new_ones.default", "aten.new_empty.default", "aten.contiguous.default", "aten.resolve_conj.default",
+              "aten.view_as_real.default"}
 
 
 AUTO_TABLE_VARS = 12
@@ -772,7 +780,7 @@ def h_copy(func, args, kwargs):
     src = args[0]
     a = src.arr()
     if mout.dtype != src.dtype:
-        a = vec(lambda v: _cast(v, src.dtype, mout.dtype), a)
+        a = vec(lambda v: _cast(v, src.dtype, mout.dtype), A(src))
     return out_like(a.copy(), mout)
 
 
@@ -791,7 +799,7 @@ def _cast(v, src, dst):
 @handler("aten.copy_.default")
 def h_copy_(func, args, kwargs):
     dst, src = args[0], args[1]
-    a = A(src)
+    a = AK(src)
     if isinstance(src, SymTensor) and src.dtype != dst.dtype:
         a = vec(lambda v: _cast(v, src.dtype, dst.dtype), a)
     _write(dst, a)
@@ -800,7 +808,7 @@ def h_copy_(func, args, kwargs):
 
 @handler("aten.fill_.Scalar", "aten.fill_.Tensor")
 def h_fill_(func, args, kwargs):
-    _write(args[0], A(args[1]))
+    _write(args[0], AK(args[1]))
     return args[0]
 
 
@@ -884,6 +892,18 @@ def h_view_as_real(func, args, kwargs):
     a = args[0].arr()
     out = np.empty(a.shape + (2,), dtype=object)
     for idx in np.ndindex(*a.shape):
+        if type(a[idx]) is GT.G:
+            g = a[idx]
+            with _disable_current_modes():
+                parts = (g.leaves.real.clone(), g.leaves.imag.clone())
+            for c in (0, 1):
+                s2, l2 = GT.reduce_support(g.sel, parts[c])
+                if s2:
+                    out[idx + (c,)] = GT.G(s2, l2)
+                else:
+                    with _disable_current_modes():
+                        out[idx + (c,)] = l2.reshape(-1)[0].item()
+            continue
         v = S.tocx(a[idx])
         out[idx + (0,)] = v.re
         out[idx + (1,)] = v.im
@@ -1108,7 +1128,7 @@ def h_addmm(func, args, kwargs):
 def h_cat(func, args, kwargs):
     mout = run_meta(func, args, kwargs)
     dim = args[1] if len(args) > 1 else kwargs.get("dim", 0)
-    arrs = [A(t) for t in args[0] if not (t.dim() == 1 and t.numel() == 0)]
+    arrs = [AK(t) for t in args[0] if not (t.dim() == 1 and t.numel() == 0)]
     if not arrs:
         return out_like(np.empty(tuple(mout.shape), dtype=object), mout)
     return out_like(np.concatenate(arrs, axis=dim), mout)
@@ -1118,7 +1138,7 @@ def h_cat(func, args, kwargs):
 def h_stack(func, args, kwargs):
     mout = run_meta(func, args, kwargs)
     dim = args[1] if len(args) > 1 else kwargs.get("dim", 0)
-    arrs = [A(t) for t in args[0]]
+    arrs = [AK(t) for t in args[0]]
     nd = arrs[0].ndim + 1
     return out_like(np.stack(arrs, axis=dim % nd), mout)
 
@@ -1126,7 +1146,7 @@ def h_stack(func, args, kwargs):
 @handler("aten.flip.default")
 def h_flip(func, args, kwargs):
     mout = run_meta(func, args, kwargs)
-    return out_like(np.flip(A(args[0]), axis=tuple(args[1])).copy(), mout)
+    return out_like(np.flip(AK(args[0]), axis=tuple(args[1])).copy(), mout)
 
 
 @handler("aten.roll.default")
@@ -1134,7 +1154,7 @@ def h_roll(func, args, kwargs):
     mout = run_meta(func, args, kwargs)
     shifts = args[1]
     dims = args[2] if len(args) > 2 else kwargs.get("dims", [])
-    a = A(args[0])
+    a = AK(args[0])
     if not dims:
         return out_like(np.roll(a.reshape(-1), shifts[0] if isinstance(shifts, (list, tuple)) else shifts).reshape(a.shape), mout)
     return out_like(np.roll(a, tuple(shifts) if isinstance(shifts, (list, tuple)) else shifts, axis=tuple(dims)), mout)
@@ -1143,7 +1163,7 @@ def h_roll(func, args, kwargs):
 @handler("aten.repeat.default")
 def h_repeat(func, args, kwargs):
     mout = run_meta(func, args, kwargs)
-    a = A(args[0])
+    a = AK(args[0])
     reps = list(args[1])
     a = a.reshape((1,) * (len(reps) - a.ndim) + a.shape)
     return out_like(np.tile(a, reps), mout)
@@ -1152,7 +1172,7 @@ def h_repeat(func, args, kwargs):
 @handler("aten.repeat_interleave.self_int")
 def h_repeat_interleave(func, args, kwargs):
     mout = run_meta(func, args, kwargs)
-    a = A(args[0])
+    a = AK(args[0])
     dim = kwargs.get("dim", args[2] if len(args) > 2 else None)
     if dim is None:
         return out_like(np.repeat(a.reshape(-1), args[1]), mout)
@@ -1162,7 +1182,7 @@ def h_repeat_interleave(func, args, kwargs):
 @handler("aten.constant_pad_nd.default")
 def h_pad(func, args, kwargs):
     mout = run_meta(func, args, kwargs)
-    a = A(args[0])
+    a = AK(args[0])
     pad = list(args[1])
     val = args[2] if len(args) > 2 else 0
     widths = [(0, 0)] * a.ndim
@@ -1387,7 +1407,7 @@ def h_index_put(func, args, kwargs):
         raise NotEncodable("index_put with a symbolic integer index")
     key = tuple(slice(None) if i is None else i for i in inds)
     d = base.arr()
-    v = A(values)
+    v = AK(values)
     if isinstance(values, SymTensor) and values.dtype != base.dtype:
         v = vec(lambda x: _cast(x, values.dtype, base.dtype), v)
     v = vec(lambda x: norm_scalar(x, base.dtype), v)
@@ -1444,7 +1464,7 @@ def h_equal(func, args, kwargs):
 @handler("aten.gather.default")
 def h_gather(func, args, kwargs):
     mout = run_meta(func, args, kwargs)
-    a = A(args[0])
+    a = AK(args[0])
     dim = args[1]
     ind = _concrete_index_array(args[2])
     if ind is None:
@@ -1463,7 +1483,7 @@ def h_index_select(func, args, kwargs):
     ind = _concrete_index_array(args[2])
     if ind is None:
         raise NotEncodable("index_select with a symbolic index")
-    return out_like(np.take(A(args[0]), ind, axis=args[1]), mout)
+    return out_like(np.take(AK(args[0]), ind, axis=args[1]), mout)
 
 
 @handler("aten.scatter_.src", "aten.scatter_.value", "aten.scatter.src", "aten.scatter.value")
@@ -1475,7 +1495,7 @@ def h_scatter(func, args, kwargs):
     ind = _concrete_index_array(args[2])
     if ind is None:
         raise NotEncodable("scatter with a symbolic index")
-    src = A(args[3])
+    src = AK(args[3])
     d = base.arr()
     for idx in np.ndindex(*ind.shape):
         tgt = list(idx)
